@@ -736,6 +736,9 @@ class Interp(object):
     def e_str(self, e, frame, hint):
         return e['v']
 
+    def e_bytestr(self, e, frame, hint):
+        return [RInt(b, 'u8') for b in e['v']]
+
     def e_bool(self, e, frame, hint):
         return e['v']
 
@@ -787,7 +790,8 @@ class Interp(object):
                 return consts[last]
         if head == 'Ordering' and last in ('Less', 'Equal', 'Greater'):
             return EV('Ordering', last)
-        if self.p.is_type(head) or head in ('Option', 'Result', 'String', 'Vec'):
+        if self.p.is_type(head) or head in ('Option', 'Result', 'String', 'Vec', 'ToString', 'Clone', 'Into', 'From', 'ToOwned', 'AsRef', 'Borrow', 'Iterator', 'IntoIterator', 'str', 'char') \
+                or head in INT_RANGES or head in FLOAT_TYPES:
             return ('$fnref', [head, last])
         raise Unanalysable('path %s (line %s)' % ('::'.join(segs), e.get('ln')))
 
@@ -1506,9 +1510,11 @@ class Interp(object):
             return Opt(a[0])
         if head == 'Result' and last in ('Ok', 'Err'):
             return Res(a[0], last == 'Ok')
-        if head in FLOAT_TYPES or head in INT_RANGES:
-            # f64::floor(x) style
-            return self.mcall(a[0], last, a[1:], None, None)
+        if head in FLOAT_TYPES or head in INT_RANGES or head in ('ToString', 'Clone', 'Into', 'ToOwned', 'AsRef', 'Borrow', 'Iterator', 'IntoIterator', 'str', 'char', 'String', 'Option', 'Vec'):
+            # f64::floor(x) / ToString::to_string(x) / str::len(s): universal function call syntax on a builtin value
+            if not a:
+                raise Unanalysable('builtin path %s::%s without receiver' % (head, last))
+            return self.mcall(a[0], last, a[1:], hint, None)
         raise Unanalysable('builtin path %s::%s' % (head, last))
 
     def parse_int(self, s, radix, ty):
